@@ -2,8 +2,8 @@
 
 spec/ExprGrammar.tla defines the operator table, well-typed expression trees, PrintExpr (minimal parentheses), Ast
 (cppcheck's edge convention) and a reference parser of the ISO grammar.
-  laws   TLC checks Parse(PrintExpr(t)) = t and injectivity of PrintExpr on every case of the run (spec self-consistency).
-  gen    TLC enumerates the statements (all trees with exactly n operators per stratum + a seeded sample of larger ones).
+  gen    TLC enumerates the statements (all trees with exactly n operators per stratum + a seeded sample of larger ones)
+         and checks the laws Parse(PrintExpr(t)) = t and injectivity of PrintExpr on every one of them (spec self-consistency).
   run    every statement becomes one line of a generated C / C++ file; `cppcheck --dump`; the AST edges of each line are
          read off the dump (tokens named by their position in the printed statement).
   judge  TLC compares the observed edge set with Ast(t).
@@ -58,19 +58,35 @@ FUNC_HEAD = "int g%d(int a, int b, int c, int *p, struct S s, struct S *q)\n{\n 
 FUNC_TAIL = "  return 0;\n}\n"
 
 
+ALL_CTX = ["asg", "if", "ret", "arg"]
+REP_BIN = ["*", "+", "-", "<<", "<", ">", "==", "&", "^", "|", "&&", "||"]
+REP1_BIN = ["*", "-", "<<", "<", "==", "&", "^", "|", "&&", "||"]
+OTHER_FAMS = ["leaf", "pcmp", "un", "inc", "asg", "comma", "cast", "sz", "call", "deref", "sub", "mem", "addr", "padd", "pinc", "pasg", "pcomma"]
+
+
+def exact(pf, n, ctx, fam=("*",)):
+    return {"kind": "exact", "pf": pf, "n": n, "ctx": list(ctx), "fam": list(fam)}
+
+
+def bins(ops):
+    return ["bin:" + o for o in ops]
+
+
 def plan(tier):
+    """The strata of a run, grouped into parts; every part is enumerated, run and judged by its own chain of TLC processes."""
+    small = [exact("full", 0, ALL_CTX), exact("full", 1, ALL_CTX), {"kind": "unary2", "pf": "full"}]
     if tier == "quick":
-        return [{"kind": "exact", "pf": "full", "n": 0, "ctx": ["asg", "if", "ret", "arg"]},
-                {"kind": "exact", "pf": "full", "n": 1, "ctx": ["asg", "if", "ret", "arg"]},
-                {"kind": "unary2", "pf": "full"},
-                {"kind": "exact", "pf": "rep", "n": 2, "ctx": ["asg"]},
-                {"kind": "big", "pf": "rep", "n": 150}]
-    return [{"kind": "exact", "pf": "full", "n": 0, "ctx": ["asg", "if", "ret", "arg"]},
-            {"kind": "exact", "pf": "full", "n": 1, "ctx": ["asg", "if", "ret", "arg"]},
-            {"kind": "unary2", "pf": "full"},
-            {"kind": "exact", "pf": "rep", "n": 2, "ctx": ["asg", "if", "ret", "arg"]},
-            {"kind": "exact", "pf": "rep1", "n": 3, "ctx": ["asg"]},
-            {"kind": "big", "pf": "rep", "n": 6000}]
+        return [small + [{"kind": "big", "pf": "rep", "n": 150}],
+                [exact("rep1", 2, ["asg"])]]
+    parts = [small,
+             [exact("rep", 2, ALL_CTX, bins(REP_BIN[:4]))], [exact("rep", 2, ALL_CTX, bins(REP_BIN[4:8]))], [exact("rep", 2, ALL_CTX, bins(REP_BIN[8:]))],
+             [exact("rep", 2, ALL_CTX, ["cond", "pcond"] + OTHER_FAMS)]]
+    for k in range(0, len(REP1_BIN), 2):
+        parts.append([exact("rep1", 3, ["asg"], bins(REP1_BIN[k:k + 2]))])
+    parts.append([exact("rep1", 3, ["asg"], ["cond", "pcond"])])
+    parts.append([exact("rep1", 3, ["asg"], OTHER_FAMS)])
+    parts.append([{"kind": "big", "pf": "rep", "n": 4000}])
+    return parts
 
 
 T0 = time.time()
@@ -84,7 +100,7 @@ def tlc(mode, lang, env, seed, timeout):
     e = dict(JAVA_ENV)
     e.update(env)
     e.update({"MODE": mode, "LANG": lang})
-    r = vlib.tlc("ExprGrammar", "ExprGrammar.cfg", env=e, workers=1, timeout=timeout, xmx="10g", extra=("-seed", str(seed)))
+    r = vlib.tlc("ExprGrammar", "ExprGrammar.cfg", env=e, workers=1, timeout=timeout, xmx="8g", extra=("-seed", str(seed)))
     if not r.ok:
         raise vlib.InfraError("model failure in ExprGrammar.tla mode=%s lang=%s (rc=%s)\n%s" % (mode, lang, r.rc, r.out[-3000:]))
     note("TLC %s %s done in %.1fs" % (mode, lang, r.wall))
@@ -220,12 +236,16 @@ def extract(rec, cases, where, obs):
 
 
 # ------------------------------------------------------------------------------------------------ the run
-def run_lang(lang, tier, seed, work, planpath):
-    """gen -> observe -> judge for one language. Returns dict with counts and the disputed cases."""
-    cases_path = os.path.join(work, "cases.%s.ndjson" % lang)
+def run_part(lang, part, seed, work, planpath):
+    """laws -> gen -> observe -> judge for one part of the plan in one language. Returns dict with counts and the disputed cases."""
+    cases_path = os.path.join(work, "cases.%s.%d.ndjson" % (lang, part))
     r = tlc("gen", lang, {"PLAN": planpath, "OUT": cases_path}, seed, 3000)
     m = re.search(r'"CASES",\s*(\d+)', r.out)
+    ml = re.search(r'"LAWS",\s*(\d+)', r.out)
+    if not m or not ml or m.group(1) != ml.group(1):
+        raise vlib.InfraError("ExprGrammar gen: laws / cases count missing\n" + r.out[-2000:])
     ncases = int(m.group(1))
+    nlaws = int(ml.group(1))
     # shards of the case file (line based)
     shards = []
     with open(cases_path) as f:
@@ -237,7 +257,7 @@ def run_lang(lang, tier, seed, work, planpath):
                 buf = []
         if buf:
             shards.append(buf)
-    res = {"lang": lang, "cases": ncases, "ok": 0, "rejected": 0, "bad": [], "by_n": {}, "samples": [], "rejected_samples": [], "distinct": set(),
+    res = {"lang": lang, "laws": nlaws, "cases": ncases, "ok": 0, "rejected": 0, "bad": [], "by_n": {}, "samples": [], "rejected_samples": [], "distinct": set(),
            "rewritten": 0, "rewritten_samples": []}
     for si, lines in enumerate(shards):
         cases = [json.loads(x) for x in lines]
@@ -247,10 +267,10 @@ def run_lang(lang, tier, seed, work, planpath):
         with concurrent.futures.ThreadPoolExecutor(NPROC) as ex:
             for o in ex.map(lambda ch: observe(ch, lang), chunks):
                 obs += o
-        note("cppcheck %s shard %d: %d statements observed" % (lang, si, len(obs)))
-        spath = os.path.join(work, "shard.%s.%d.ndjson" % (lang, si))
-        opath = os.path.join(work, "obs.%s.%d.ndjson" % (lang, si))
-        bpath = os.path.join(work, "bad.%s.%d.ndjson" % (lang, si))
+        note("cppcheck %s part %d shard %d: %d statements observed" % (lang, part, si, len(obs)))
+        spath = os.path.join(work, "shard.%s.%d.%d.ndjson" % (lang, part, si))
+        opath = os.path.join(work, "obs.%s.%d.%d.ndjson" % (lang, part, si))
+        bpath = os.path.join(work, "bad.%s.%d.%d.ndjson" % (lang, part, si))
         with open(spath, "w") as f:
             f.writelines(lines)
         vlib.write_ndjson(opath, obs)
@@ -281,20 +301,12 @@ def run_lang(lang, tier, seed, work, planpath):
                 res["rejected"] += 1
                 if len(res["rejected_samples"]) < 8:
                     res["rejected_samples"].append(" ".join(c["toks"]))
-        for c, o in list(zip(cases, obs))[:: max(1, len(cases) // 3)][:3]:
+        for c, o in list(zip(cases, obs))[:: max(1, len(cases) // 2)][:2]:
             res["samples"].append({"lang": lang, "stmt": " ".join(c["toks"]), "observed_edges": o["edges"], "status": o["status"]})
         for p in (spath, opath):
             os.unlink(p)
     os.unlink(cases_path)
     return res
-
-
-def laws(lang, seed, planpath):
-    r = tlc("laws", lang, {"PLAN": planpath}, seed, 3000)
-    m = re.search(r'"LAWS",\s*(\d+)', r.out)
-    if not m:
-        raise vlib.InfraError("ExprGrammar laws: no result\n" + r.out[-2000:])
-    return int(m.group(1))
 
 
 def judge_cases(lang, cases_path, ncases, seed, work, tag):
@@ -383,14 +395,40 @@ def main(tier, seed, replay=None):
         return do_replay(replay, seed)
     vlib.tmproot()
     work = vlib.mktmp("c07run")
-    planpath = os.path.join(work, "plan.ndjson")
     pl = plan(tier)
-    vlib.write_ndjson(planpath, pl)
+    tasks = []
+    for k, part in enumerate(pl):
+        pp = os.path.join(work, "plan%d.ndjson" % k)
+        vlib.write_ndjson(pp, part)
+        for lang in ("c", "cpp"):
+            tasks.append((lang, k, pp))
+    # biggest parts first; NTLC chains at a time (each chain: one TLC process or NPROC cppcheck processes)
+    tasks.sort(key=lambda t: -max((st.get("n", 0) if st["kind"] == "exact" else 2) for st in pl[t[1]]))
     with concurrent.futures.ThreadPoolExecutor(NTLC) as ex:
-        f_laws = {lang: ex.submit(laws, lang, seed, planpath) for lang in ("c", "cpp")}
-        f_run = {lang: ex.submit(run_lang, lang, tier, seed, work, planpath) for lang in ("c", "cpp")}
-        res = {lang: f_run[lang].result() for lang in ("c", "cpp")}
-        nlaws = {lang: f_laws[lang].result() for lang in ("c", "cpp")}
+        futs = [(lang, ex.submit(run_part, lang, k, seed, work, pp)) for lang, k, pp in tasks]
+        parts = [(lang, f.result()) for lang, f in futs]
+    res, nlaws = {}, {}
+    for lang in ("c", "cpp"):
+        rs = [r for l, r in parts if l == lang]
+        agg = {"lang": lang, "cases": 0, "ok": 0, "rejected": 0, "rewritten": 0, "bad": [], "by_n": {}, "samples": [], "rejected_samples": [],
+               "rewritten_samples": [], "distinct": set()}
+        for r in rs:
+            for key in ("cases", "ok", "rejected", "rewritten"):
+                agg[key] += r[key]
+            for key in ("bad", "samples", "rejected_samples", "rewritten_samples"):
+                agg[key] += r[key]
+            agg["distinct"] |= r["distinct"]
+            for n, d in r["by_n"].items():
+                t = agg["by_n"].setdefault(n, {})
+                for kk, v in d.items():
+                    t[kk] = t.get(kk, 0) + v
+        # ids are per part: renumber the disputed cases
+        for i, b in enumerate(agg["bad"]):
+            b["id"] = i + 1
+        agg["rejected_samples"] = agg["rejected_samples"][:10]
+        agg["rewritten_samples"] = agg["rewritten_samples"][:10]
+        res[lang] = agg
+        nlaws[lang] = sum(r["laws"] for r in rs)
 
     violations = []
     disagreements = []
